@@ -70,12 +70,32 @@ pub struct BddCfg {
     pub order_keys: Vec<u16>,
     pub cache: u8,
     pub table_cap: Option<u16>,
+    /// Some((total, seed)): the builder has `total` variables (up to 200) in a pseudo-random order, and the n0
+    /// variables the history works with are scattered among them (labels from the seed), so that labels and levels
+    /// cross 32 / 64 / 128 while the truth-table oracle still has at most 8 variables
+    #[serde(default)]
+    pub embed: Option<(u8, u64)>,
 }
 
 impl BddCfg {
     /// level -> label
     pub fn order(&self) -> Vec<usize> {
-        perm_from_keys(&self.order_keys, self.n0 as usize)
+        match self.embed {
+            Some((total, seed)) => crate::big::permutation(seed, (total as usize).max(self.n0 as usize)),
+            None => perm_from_keys(&self.order_keys, self.n0 as usize),
+        }
+    }
+    /// builder label of oracle variable i (i < n0)
+    pub fn labels(&self) -> Vec<usize> {
+        match self.embed {
+            Some((total, seed)) => {
+                let t = (total as usize).max(self.n0 as usize);
+                let mut l = crate::big::permutation(seed ^ 0x5EED_1ABE, t);
+                l.truncate(self.n0 as usize);
+                l
+            }
+            None => (0..self.n0 as usize).collect(),
+        }
     }
     pub fn var_order(&self) -> VarOrder {
         let o: Vec<VarLabel> = self.order().into_iter().map(VarLabel::new_usize).collect();
@@ -168,6 +188,7 @@ pub fn cfg_strategy(max_n0: u8) -> impl Strategy<Value = BddCfg> {
             order_keys,
             cache,
             table_cap,
+            embed: None,
         })
 }
 
@@ -189,15 +210,34 @@ pub struct BddRun<'a, T: IteTable<'a, BddPtr<'a>> + Default> {
     pub n: usize,
     pub new_vars: usize,
     pub max_new_vars: usize,
+    /// builder label of oracle variable i (identity unless the configuration embeds the history in a larger builder)
+    pub labels: Vec<usize>,
     /// set when a variable added at run time did not get a fresh label at the end of the order
     pub label_fault: Option<String>,
 }
 
 impl<'a, T: IteTable<'a, BddPtr<'a>> + Default> BddRun<'a, T> {
     pub fn new(b: &'a RobddBuilder<'a, T>, n0: usize) -> Self {
+        Self::new_embedded(b, (0..n0).collect())
+    }
+
+    /// `labels[i]` is the builder label that plays oracle variable i; the walker's label map is set accordingly
+    /// (and cleared for the identity embedding)
+    pub fn new_embedded(b: &'a RobddBuilder<'a, T>, labels: Vec<usize>) -> Self {
+        let n0 = labels.len();
+        let identity = labels.iter().enumerate().all(|(i, l)| i == *l) && b.num_vars() == n0;
+        if identity {
+            crate::walk::set_label_map(None);
+        } else {
+            let mut m: Vec<Option<usize>> = vec![None; b.num_vars().max(labels.iter().copied().max().map(|x| x + 1).unwrap_or(0))];
+            for (i, l) in labels.iter().enumerate() {
+                m[*l] = Some(i);
+            }
+            crate::walk::set_label_map(Some(m));
+        }
         let mut pool = vec![(BddPtr::PtrTrue, Tt::TRUE), (BddPtr::PtrFalse, Tt::FALSE)];
-        for v in 0..n0 {
-            pool.push((b.var(VarLabel::new_usize(v), true), Tt::var(v)));
+        for (v, l) in labels.iter().enumerate() {
+            pool.push((b.var(VarLabel::new_usize(*l), true), Tt::var(v)));
         }
         BddRun {
             b,
@@ -205,8 +245,30 @@ impl<'a, T: IteTable<'a, BddPtr<'a>> + Default> BddRun<'a, T> {
             n: n0,
             new_vars: 0,
             max_new_vars: NV,
+            labels,
             label_fault: None,
         }
+    }
+
+    /// builder label of oracle variable v
+    fn lbl(&self, v: usize) -> VarLabel {
+        VarLabel::new_usize(self.labels[v])
+    }
+
+    /// a partial model over ALL builder variables: oracle variable i gets m[i]; in an embedded history the other
+    /// builder variables (which no operand mentions) get values too, from the raw op data, and must not matter
+    fn partial_model(&self, m: &[Option<bool>], raw: &[Option<bool>]) -> PartialModel {
+        let total = self.b.num_vars();
+        let mut all: Vec<Option<bool>> = vec![None; total];
+        if total > self.n {
+            for (l, slot) in all.iter_mut().enumerate() {
+                *slot = raw.get((l * 7 + 3) % raw.len().max(1)).copied().flatten();
+            }
+        }
+        for (i, l) in self.labels.iter().enumerate() {
+            all[*l] = m.get(i).copied().flatten();
+        }
+        PartialModel::from_assignments(&all)
     }
 
     fn at(&self, i: u16) -> usize {
@@ -225,16 +287,19 @@ impl<'a, T: IteTable<'a, BddPtr<'a>> + Default> BddRun<'a, T> {
             BOp::Expr(e) => {
                 let n = self.n;
                 let e2 = crate::textgen::rename(e, &|v| v % n);
-                (b.compile_logical_expr(&e2.to_logical()), e2.tt(), vec![])
+                let labels = self.labels.clone();
+                let e3 = crate::textgen::rename(&e2, &|v| labels[v]);
+                (b.compile_logical_expr(&e3.to_logical()), e2.tt(), vec![])
             }
             BOp::Plan(pl) => {
                 let pl2 = rename_plan(pl, self.n);
-                (b.compile_plan(&pl2.to_plan()), pl2.tt(), vec![])
+                let pl3 = relabel_plan(&pl2, &self.labels);
+                (b.compile_plan(&pl3.to_plan()), pl2.tt(), vec![])
             }
             BOp::CnfAssign(cl, m) => {
                 let mapped: Vec<Vec<(usize, bool)>> = cl.iter().map(|c| c.iter().map(|(v, p)| (self.v(*v), *p)).collect()).collect();
                 let lits: Vec<Vec<rsdd::repr::Literal>> =
-                    mapped.iter().map(|c| c.iter().map(|(v, p)| rsdd::repr::Literal::new(VarLabel::new_usize(*v), *p)).collect()).collect();
+                    mapped.iter().map(|c| c.iter().map(|(v, p)| rsdd::repr::Literal::new(self.lbl(*v), *p)).collect()).collect();
                 let cnf = rsdd::repr::Cnf::new(&lits);
                 let mut t = mapped.iter().fold(Tt::TRUE, |acc, c| acc.and(c.iter().fold(Tt::FALSE, |a, (v, p)| a.or(Tt::lit(*v, *p)))));
                 let mv: Vec<Option<bool>> = (0..self.n).map(|i| m.get(i).copied().flatten()).collect();
@@ -243,19 +308,19 @@ impl<'a, T: IteTable<'a, BddPtr<'a>> + Default> BddRun<'a, T> {
                         t = t.cofactor(v, *val);
                     }
                 }
-                (b.compile_cnf_with_assignments(&cnf, &PartialModel::from_assignments(&mv)), t, vec![])
+                (b.compile_cnf_with_assignments(&cnf, &self.partial_model(&mv, m)), t, vec![])
             }
             BOp::Cnf(cl) => {
                 let mapped: Vec<Vec<(usize, bool)>> = cl.iter().map(|c| c.iter().map(|(v, p)| (self.v(*v), *p)).collect()).collect();
                 let lits: Vec<Vec<rsdd::repr::Literal>> =
-                    mapped.iter().map(|c| c.iter().map(|(v, p)| rsdd::repr::Literal::new(VarLabel::new_usize(*v), *p)).collect()).collect();
+                    mapped.iter().map(|c| c.iter().map(|(v, p)| rsdd::repr::Literal::new(self.lbl(*v), *p)).collect()).collect();
                 let cnf = rsdd::repr::Cnf::new(&lits);
                 let t = mapped.iter().fold(Tt::TRUE, |acc, c| acc.and(c.iter().fold(Tt::FALSE, |a, (v, p)| a.or(Tt::lit(*v, *p)))));
                 (b.compile_cnf(&cnf), t, vec![])
             }
             BOp::Lit(v, p) => {
                 let v = self.v(*v);
-                (b.var(VarLabel::new_usize(v), *p), Tt::lit(v, *p), vec![])
+                (b.var(self.lbl(v), *p), Tt::lit(v, *p), vec![])
             }
             BOp::Const(c) => (
                 if *c { b.true_ptr() } else { b.false_ptr() },
@@ -310,15 +375,16 @@ impl<'a, T: IteTable<'a, BddPtr<'a>> + Default> BddRun<'a, T> {
                 let a = self.at(*a);
                 let v = self.v(*v);
                 (
-                    b.condition(self.pool[a].0, VarLabel::new_usize(v), *val),
+                    b.condition(self.pool[a].0, self.lbl(v), *val),
                     self.pool[a].1.cofactor(v, *val),
                     vec![a],
                 )
             }
             BOp::CondModel(a, m) => {
                 let a = self.at(*a);
+                let raw = m;
                 let m: Vec<Option<bool>> = (0..self.n).map(|i| m.get(i).copied().flatten()).collect();
-                let pm = PartialModel::from_assignments(&m);
+                let pm = self.partial_model(&m, raw);
                 let mut t = self.pool[a].1;
                 for (v, x) in m.iter().enumerate() {
                     if let Some(val) = x {
@@ -331,7 +397,7 @@ impl<'a, T: IteTable<'a, BddPtr<'a>> + Default> BddRun<'a, T> {
                 let a = self.at(*a);
                 let v = self.v(*v);
                 (
-                    b.exists(self.pool[a].0, VarLabel::new_usize(v)),
+                    b.exists(self.pool[a].0, self.lbl(v)),
                     self.pool[a].1.exists(v),
                     vec![a],
                 )
@@ -340,7 +406,7 @@ impl<'a, T: IteTable<'a, BddPtr<'a>> + Default> BddRun<'a, T> {
                 let (f, g) = (self.at(*f), self.at(*g));
                 let v = self.v(*v);
                 (
-                    b.compose(self.pool[f].0, VarLabel::new_usize(v), self.pool[g].0),
+                    b.compose(self.pool[f].0, self.lbl(v), self.pool[g].0),
                     self.pool[f].1.compose(v, self.pool[g].1),
                     vec![f, g],
                 )
@@ -361,27 +427,31 @@ impl<'a, T: IteTable<'a, BddPtr<'a>> + Default> BddRun<'a, T> {
                 if self.n >= NV || self.new_vars >= self.max_new_vars {
                     return None;
                 }
+                let before = b.num_vars();
                 let (lbl, ptr) = b.new_var(*p);
                 let seq: Vec<usize> = b.order().in_order_iter().map(|x| x.value_usize()).collect();
                 let mut sorted = seq.clone();
                 sorted.sort_unstable();
-                if lbl.value_usize() != self.n || sorted != (0..=self.n).collect::<Vec<_>>() {
+                if lbl.value_usize() != before || sorted != (0..=before).collect::<Vec<_>>() {
                     // a variable added at run time must be a new one: the next unused label (VarOrder::new_last's
                     // doc test), with the order still listing every variable once. Where it sits in the order is
                     // not this property's concern (C14 checks the extension of the order).
                     self.label_fault = Some(format!(
                         "new_var on a builder with {} variables returned label {} and the order is now {:?} (expected the fresh label {} and an order listing 0..={} once each)",
-                        self.n,
+                        before,
                         lbl.value(),
                         seq,
-                        self.n,
-                        self.n
+                        before,
+                        before
                     ));
                 }
-                let v = lbl.value_usize();
+                // the new builder variable plays the next oracle variable
+                let v = self.n;
+                self.labels.push(lbl.value_usize());
+                crate::walk::extend_label_map(lbl.value_usize(), v);
                 self.n += 1;
                 self.new_vars += 1;
-                (ptr, if v < NV { Tt::lit(v, *p) } else { Tt::FALSE }, vec![])
+                (ptr, Tt::lit(v, *p), vec![])
             }
         };
         self.pool.push((ptr, tt));
@@ -431,6 +501,21 @@ fn rename_plan(p: &crate::exprgen::Pl, n: usize) -> crate::exprgen::Pl {
     let r = |x: &Pl| Box::new(rename_plan(x, n));
     match p {
         Pl::Lit(v, pol) => Pl::Lit((*v as usize % n) as u8, *pol),
+        Pl::True => Pl::True,
+        Pl::False => Pl::False,
+        Pl::Not(a) => Pl::Not(r(a)),
+        Pl::And(a, b) => Pl::And(r(a), r(b)),
+        Pl::Or(a, b) => Pl::Or(r(a), r(b)),
+        Pl::Iff(a, b) => Pl::Iff(r(a), r(b)),
+        Pl::Ite(a, b, c) => Pl::Ite(r(a), r(b), r(c)),
+    }
+}
+
+fn relabel_plan(p: &crate::exprgen::Pl, labels: &[usize]) -> crate::exprgen::Pl {
+    use crate::exprgen::Pl;
+    let r = |x: &Pl| Box::new(relabel_plan(x, labels));
+    match p {
+        Pl::Lit(v, pol) => Pl::Lit(labels[*v as usize] as u8, *pol),
         Pl::True => Pl::True,
         Pl::False => Pl::False,
         Pl::Not(a) => Pl::Not(r(a)),
